@@ -2,6 +2,7 @@ import Ogorek.Decoder
 import Ogorek.Encoder
 import Ogorek.Conv
 import Ogorek.Opcodes
+import Ogorek.Reflect
 import Ogorek.Generated.IsPrint
 
 /-!
@@ -228,6 +229,50 @@ def showOut (o : Out) : String :=
   | some e => s!"ERR {e.render} {o.chunks.length}"
 
 
+mutual
+/-- Parse the description of a reflect-generated value. -/
+partial def parseRVal : List String → Option (RVal × List String)
+  | [] => none
+  | t :: rest =>
+    if t == "inv" then some (.invalid, rest)
+    else if t == "zero" then some (.zero, rest)
+    else if t.startsWith "uns:" then some (.unsupported (t.drop 4).toString, rest)
+    else if t.startsWith "barr:" then (bytesOfHex? (t.drop 5).toString).map fun b => (.bytearr b, rest)
+    else if t == "seq(" then (parseRSeq rest []).map fun (xs, r) => (.seq xs, r)
+    else if t == "tup(" then (parseRSeq rest []).map fun (xs, r) => (.tuple xs, r)
+    else if t == "rmap(" then (parseRSeq rest []).bind fun (xs, r) => (rpairUp xs).map fun kvs => (.map kvs, r)
+    else if t == "ptr(" then do
+      let (v, r) ← parseRVal rest
+      match r with
+      | ")" :: r' => pure (.ptr v, r')
+      | _ => none
+    else if t == "st(" then (parseRFields rest []).map fun (fs, r) => (.strct fs, r)
+    else (parseVal (t :: rest)).map fun (v, r) => (.val v, r)
+partial def parseRSeq : List String → List RVal → Option (List RVal × List String)
+  | [], _ => none
+  | ")" :: rest, acc => some (acc.reverse, rest)
+  | toks, acc => do
+    let (v, r) ← parseRVal toks
+    parseRSeq r (v :: acc)
+partial def rpairUp : List RVal → Option (List (RVal × RVal))
+  | [] => some []
+  | k :: v :: r => (rpairUp r).map ((k, v) :: ·)
+  | _ => none
+partial def parseRFields : List String → List (Bytes × Bool × Option Bytes × RVal) → Option (List (Bytes × Bool × Option Bytes × RVal) × List String)
+  | [], _ => none
+  | ")" :: rest, acc => some (acc.reverse, rest)
+  | hd :: toks, acc =>
+    match hd.splitOn ":" with
+    | [name, flags] => do
+      let (v, r) ← parseRVal toks
+      let exported := flags.startsWith "e"
+      let tag : Option Bytes := match flags.splitOn "=" with
+        | [_, t] => some (sb t)
+        | _ => none
+      parseRFields r ((sb name, exported, tag, v) :: acc)
+    | _ => none
+end
+
 def handle (line : String) : String :=
   match (line.splitOn " ").filter (· ≠ "") with
   | ["dec", cfg, hook, hex] =>
@@ -282,6 +327,10 @@ def handle (line : String) : String :=
     | _, _ => "BADCASE"
   | ["optable"] =>
     " ".intercalate (opTable.map fun o => s!"{o.code.toNat}:{o.name}:{o.proto}:{repr o.arg}")
+  | "encr" :: proto :: su :: toks =>
+    match proto.toInt?, parseRVal toks with
+    | some p, some (v, []) => showOut (encodeTopR ip { proto := p, su := su == "1" } v)
+    | _, _ => "BADCASE"
   | ["reenc", cfg, hex] =>
     match parseCfg cfg, bytesOfHex? hex with
     | some c, some inp => runReenc c inp
